@@ -9,7 +9,7 @@
    statements of Shapes/Oct.v stay plain Definitions). *)
 From Coq Require Import List ZArith QArith.
 Require Import PPLV.Base.FM PPLV.Base.Sys PPLV.Base.Sup.
-Require Import PPLV.Shapes.ExtNum PPLV.Shapes.DBM PPLV.Shapes.DBMExact PPLV.Shapes.DBMClosed PPLV.Shapes.Oct
+Require Import PPLV.Shapes.ExtNum PPLV.Shapes.DBM PPLV.Shapes.DBMExact PPLV.Shapes.DBMClosed PPLV.Shapes.DBMDisjoint PPLV.Shapes.Oct
                PPLV.Shapes.Templ PPLV.Shapes.ToSys.
 Local Open Scope Q_scope.
 
@@ -51,16 +51,19 @@ Proof. intros T C. exact (equals_exact C). Qed.
 Theorem C04_rational_carrier_exact : add_exact Qc /\ neg_exact Qc.
 Proof. split; [exact Qc_add_exact|exact Qc_neg_exact]. Qed.
 
-(* BD_Shape::is_disjoint_from as written compares only pairwise opposed bounds: it misses disjointness through a cycle *)
-Theorem C04_is_disjoint_pairwise_refuted : exists (x y : nat -> nat -> ext Q),
-  closed Qc 3 x /\ closed Qc 3 y /\ diag_inf 3 x /\ diag_inf 3 y /\
-  code_is_disjoint Qc 3 x y = false /\ (forall p, den Qc 3 x p -> den Qc 3 y p -> False).
-Proof. exact is_disjoint_pairwise_refuted. Qed.
+(* BD_Shape::is_disjoint_from after the repair (intersect, close, test emptiness) is exact over an exact carrier.
+   (Before the repair the pairwise test was refuted: DBMExact.is_disjoint_pairwise_refuted, Oct.oct_is_disjoint_pairwise_refuted
+   remain in the development as facts about the OLD code's model code_is_disjoint / oct_code_is_disjoint.) *)
+Theorem C04_is_disjoint_exact : forall T (C : carrier T) n x y,
+  add_exact C -> diag_inf n x -> diag_inf n y ->
+  (fixed_is_disjoint C n x y = true <-> forall p, den C n x p -> den C n y p -> False).
+Proof. intros T C. exact (is_disjoint_exact C). Qed.
 
-Theorem C04_oct_is_disjoint_pairwise_refuted : exists x y : nat -> nat -> ext Q,
-  oct_closed_b Qc 3 x = true /\ oct_closed_b Qc 3 y = true /\ oct_code_is_disjoint Qc 3 x y = false /\
-  (forall p, den_oct Qc 3 x p -> den_oct Qc 3 y p -> False).
-Proof. exact oct_is_disjoint_pairwise_refuted. Qed.
+(* octagons: soundness only; exactness is DBMDisjoint.oct_is_disjoint_exact_full (needs the unproved tightness of the strong closure) *)
+Theorem C04_oct_is_disjoint_partial : forall T (C : carrier T) n x y,
+  oct_diag_ok C n x -> oct_diag_ok C n y -> oct_fixed_is_disjoint C n x y = true ->
+  forall p, den_oct C n x p -> den_oct C n y p -> False.
+Proof. intros T C. exact (oct_fixed_is_disjoint_sound C). Qed.
 
 (* best abstraction *)
 Theorem C04_alpha_template_sound : forall keep n E es l,
